@@ -112,6 +112,8 @@ def _meta_for(case, rng, nch):
     wla = xr.DataArray([wl[l] for l in pl], dims="illumination", coords={"illumination": pl})
     nsa = xr.DataArray([ns[l] for l in pl], dims="illumination", coords={"illumination": pl})
     pola = xr.concat([to_vector(pol[l]) for l in pl], xr.DataArray(pl, dims="illumination", name="illumination"))
+    if rng.random() < 0.5:
+        pola = pola.transpose("vector", "illumination")      # the other dimension order means the same thing
     return dict(medium_index=mi, illum_wavelen=wla, illum_polarization=pola, noise_sd=nsa), {"illum_wavelen": wl, "noise_sd": ns, "illum_polarization": pol}
 
 
@@ -365,6 +367,17 @@ def _run_avg(case, td):
     if ref is not None:
         m2 = load_average(paths, refimg=ref, medium_index=1.2, noise_sd=0.01)
         flags["explicit_overrides_ref"] = bool(m2.attrs["medium_index"] == 1.2 and m2.attrs["noise_sd"] == 0.01 and m2.attrs["illum_wavelen"] == 0.5)
+    # the averaged image (its noise_sd is a computed array) goes through the HDF5 format like any other image
+    import holopy as hp
+    pav = os.path.join(td, "averaged.h5")
+    try:
+        hp.save(pav, first)
+        back = hp.load(pav)
+        flags["average_saved_and_reloaded"] = bool(np.array_equal(back.transpose(*first.dims).values, first.values) and
+                                                   np.allclose(np.asarray(getattr(back.noise_sd, "values", back.noise_sd), dtype=float).ravel(),
+                                                               np.asarray(getattr(first.noise_sd, "values", first.noise_sd), dtype=float).ravel(), rtol=1e-15, atol=0))
+    except Exception as e:
+        flags["average_saved_and_reloaded"] = False
     return {"resid": {"avg_mean": fnum(worst_mean), "avg_noise": fnum(worst_noise), "avg_order": fnum(worst_order)}, "flags": flags,
             "orders": len(orders), "const": False}
 
@@ -432,6 +445,18 @@ def _run_meta(case, td):
                     except ValueError:
                         pass
             flags["original_untouched_by_edits_of_result"] &= bool(digest(im) == before)
+    # polarization handed over as an already labelled array of arbitrary length is normalised as well
+    import xarray as xr
+    v = xr.DataArray([1.5, -2.0, 0.0], coords={"vector": ["x", "y", "z"]}, dims="vector")
+    bb = update_metadata(im, illum_polarization=v)
+    got = np.asarray(bb.attrs["illum_polarization"].values, dtype=float)
+    flags["pol_unit_labelled_array"] = bool(got.shape[-1] == 3 and np.allclose(got.reshape(-1, 3)[0] if got.ndim > 1 else got, [0.6, -0.8, 0.0], rtol=0, atol=4e-16))
+    # fields of the image that are not part of the standard set stay on the result
+    im2 = im.copy()
+    im2.attrs = dict(im2.attrs, exposure_time=0.25, camera="cam7", frame=17)
+    b2 = update_metadata(im2, medium_index=1.41)
+    flags["extra_fields_kept"] = bool(b2.attrs.get("exposure_time") == 0.25 and b2.attrs.get("camera") == "cam7" and b2.attrs.get("frame") == 17
+                                      and b2.attrs.get("medium_index") == 1.41)
     return {"resid": {}, "flags": {k: bool(v) for k, v in flags.items()}, "subsets": nsub, "const": False}
 
 
